@@ -163,6 +163,72 @@ def r_mat_repinv(rep, f):
     rep.extra["repinv_not_decided"] = undecided
 
 
+class CtorInline(SymExec):
+    """interpret the Matrix constructors in place so that `..Matrix::banded(n, a, b)` exposes which value becomes ml / mu"""
+
+    def inline_ok(self, d, rec):
+        return d.startswith("matrix::base::Matrix::") and rec.get("dk") in ("Fn", "AssocFn") and rec.get("has_body")
+
+
+def r_band_keep(rep, f):
+    """a storage descriptor copied from an operand keeps its bandwidths in place: whenever a `MatrixStorage::Banded { ml, mu }`
+    value is built (directly, or through an inlined Matrix constructor) from the fields bound by a `Banded { ml, mu }` pattern,
+    ml comes from ml and mu from mu. (The crate has no transpose; crossing the two silently moves every entry to another
+    diagonal when ml != mu.)"""
+    n = 0
+    for b in matrix_fns(f):
+        fn = b["def"]
+        if not tast.contains(b["body"], lambda z: (z.get("def") or "").endswith("MatrixStorage::Banded") or (z.get("def") or "").startswith(MAT + "::banded")):
+            continue
+        sx = CtorInline(f, fn, Hooks())
+        sx.bind_params()
+        try:
+            sx.eval(b["body"])
+        except Exception:
+            continue
+        short = fn.replace("matrix::", "")
+        k = 0
+        for ev in sx.trace:
+            if ev["kind"] != "struct" or not (ev["node"].get("def") or "").endswith("MatrixStorage::Banded"):
+                continue
+            for fname in ("ml", "mu"):
+                v = ev["fields"].get(fname)
+                if not isinstance(v, Poly):
+                    continue
+                # which pattern-bound bandwidths does this value derive from (through max/min/joins/arithmetic)?
+                srcs = set()
+                seen_ = set()
+                stack = list(v.atoms())
+                while stack:
+                    a = stack.pop()
+                    if a in seen_:
+                        continue
+                    seen_.add(a)
+                    d = DEFS.get(a)
+                    if not d:
+                        continue
+                    if d[0] == "proj" and len(d[1]) == 2 and d[1][1].single_atom() in ("ml", "mu"):
+                        srcs.add(d[1][1].single_atom())
+                        continue
+                    for x in d[1]:
+                        if isinstance(x, Poly):
+                            stack.extend(x.atoms())
+                if not srcs:
+                    continue
+                k += 1
+                n += 1
+                key = "R-BAND-KEEP:%s:%s%d" % (short, fname, k)
+                if srcs == {fname}:
+                    rep.ok("R-BAND-KEEP", key, "%s <- operands' %s" % (fname, fname))
+                else:
+                    rep.violation("R-BAND-KEEP", key, "the result's %s is computed from the operands' %s: the bandwidths are crossed and every entry lands on a wrong diagonal when ml != mu"
+                                  % (fname, sorted(srcs)), ev["node"].get("sp"))
+        if k:
+            rep.fn(fn)
+    if n < 6:
+        rep.inconc("R-BAND-KEEP", "R-BAND-KEEP:floor", "only %d copied bandwidths found in matrix/ (expected >= 6)" % n)
+
+
 def _banded_shape(got, n, m):
     """got == (a + b + 1) * n for two atoms a, b (the bound bandwidths), identifying m with n"""
     if not isinstance(got, Poly):
@@ -490,6 +556,8 @@ def run(rep, tier):
     r_band_densify(rep, f)
     r_idx_diverge(rep, f)
     r_macro_paths(rep, f)
+    rep.rule("R-BAND-KEEP", "a Banded storage descriptor built from an operand's (ml, mu) keeps ml as ml and mu as mu (directly or through an inlined Matrix constructor)")
+    r_band_keep(rep, f)
     r_macro_witness(rep, f)
     rep.explanation = ("Structural: representation invariants of every constructor / operator result (symbolic lengths), agreement of the read and write index maps, divergence of illegal writes, "
                        "and compile witnesses for the macro constructors. Not decided: entrywise equality of every operator with a dense model over all sizes (an enumeration of executions).")
